@@ -260,6 +260,18 @@ pub fn scenario_open(seed: u64, report: &mut Report, sig: &'static str) -> (Scen
     (build_scenario(&steps, report, &case_id, sig), case_id)
 }
 
+
+/// A version whose tail file exists but is zero-length (the backup was killed between the two micro-steps of
+/// its last write) carries no hunk count: like a version without tail, the loss of its LAST hunk cannot be told
+/// from an earlier kill.  (Props/C09 `open_band_trailing_hunk_loss_undetectable`; validate must stay silent on
+/// the undamaged archive, which fault-free operations produce.)
+fn trailing_hunk_of_countless_version(pre: &BTreeMap<String, String>, b: u32, dc: &DamageCase) -> bool {
+    let tail_countless = pre.get(&format!("{}/BANDTAIL", band_name(b))).map(|v| !v.starts_with("tail:")).unwrap_or(true);
+    let idx_prefix = format!("{}/i/", band_name(b));
+    let last_hunk = pre.keys().filter(|k| k.starts_with(&idx_prefix) && file_class(k) == "hunk").max().cloned();
+    tail_countless && last_hunk.as_deref() == Some(dc.rel.as_str()) && matches!(dc.damage, Damage::Delete | Damage::Truncate0)
+}
+
 // ---------------------------------------------------------------- C09
 
 pub fn run_c09(tier: &str, seed: u64, report: &mut Report) {
@@ -342,6 +354,10 @@ pub fn run_c09(tier: &str, seed: u64, report: &mut Report) {
             // does some version no longer restore exactly?
             let mut harmed: Vec<String> = Vec::new();
             for b in complete_bands(&sc.pre_state) {
+                if trailing_hunk_of_countless_version(&pre_map, b, dc) {
+                    report.hit("undetectable:trailing-hunk-of-tail-started-version");
+                    continue;
+                }
                 if let Some(snap) = sc.run.snapshots.get(&b) {
                     match out.restores.get(&b) {
                         Some(Some((rr, robs))) => {
@@ -471,6 +487,10 @@ pub fn run_c10(tier: &str, seed: u64, report: &mut Report) {
             let post_map = state_map(&out.state);
             let still_decodable_hunk = fc == "hunk" && post_map.get(&dc.rel).map(|v| v.starts_with("hunk:")).unwrap_or(false);
             for b in complete_bands(&sc.pre_state) {
+                if trailing_hunk_of_countless_version(&pre_map0, b, dc) {
+                    report.hit("undetectable:trailing-hunk-of-tail-started-version");
+                    continue;
+                }
                 if still_decodable_hunk && dc.rel.starts_with(&band_name(b)) {
                     report.hit("damage:hunk-altered-but-decodable(no promise)");
                     continue;
